@@ -56,14 +56,15 @@ type Tok struct {
 }
 
 type Claim struct {
-	Go     string   `json:"go_type"`
-	Short  string   `json:"short"`
-	Format string   `json:"format"`
-	Args   []string `json:"args"`
-	Fields []Field  `json:"fields"`
-	Toks   []Tok    `json:"tokens"`
-	Read   []string `json:"read_by_handlers"`
-	Err    string   `json:"error,omitempty"` // the ClaimHash of this type could not be extracted (fields/classes/reads still are)
+	Go      string   `json:"go_type"`
+	Short   string   `json:"short"`
+	Format  string   `json:"format"`
+	Args    []string `json:"args"`
+	Fields  []Field  `json:"fields"`
+	Toks    []Tok    `json:"tokens"`
+	Read    []string `json:"read_by_handlers"`
+	Escapes []string `json:"escapes,omitempty"` // places where the whole claim object leaves the analysed code (then every field counts as read)
+	Err     string   `json:"error,omitempty"`   // the ClaimHash of this type could not be extracted (fields/classes/reads still are)
 }
 
 type Table struct {
@@ -276,6 +277,12 @@ func Extract(repo string) (*Table, error) {
 	}
 	kp, err := loadDir(filepath.Join(repo, "x", "crosschain", "keeper"))
 	if err != nil {
+		return nil, err
+	}
+	// the executeClaim precompile path lives in x/crosschain/precompile: its functions are walked like the keeper's
+	if pp, err := loadDir(filepath.Join(repo, "x", "crosschain", "precompile")); err == nil {
+		kp.funcs = append(kp.funcs, pp.funcs...)
+	} else {
 		return nil, err
 	}
 	msgs := tp.files["msgs.go"]
@@ -538,6 +545,8 @@ func extractHash(tp *pkgInfo, msgs *ast.File, c *Claim) error {
 			kind = "int" // value-receiver Stringer
 		case fld.Kind == "strlist" && (v == 's' || v == 'v'):
 			kind = "strlist" // "[a b c]"
+		case fld.Kind == "strlist" && v == 'x':
+			kind = "hexstrlist" // "[6162 63]": every element in lowercase hex
 		case fld.Kind == "intlist" && (v == 's' || v == 'v'):
 			kind = "intlist" // "[1 2 3]" through the value-receiver Stringer of each element
 		case fld.Kind == "members" && v == 'v':
@@ -752,8 +761,34 @@ func extractValidation(tp *pkgInfo, c *Claim) error {
 func extractReads(tp, kp *pkgInfo, c *Claim) error {
 	reads := map[string]bool{}
 	var fieldsOfMethod func(name string, depth int)
+	// typedCallee: same-package functions/methods that take the claim by its concrete pointer type (scanned on their own)
+	var typedCallee map[string]bool
+	var isClaimPtr func(e ast.Expr) bool
+	isLoggerCall := func(call *ast.CallExpr) bool {
+		found := false
+		ast.Inspect(call.Fun, func(n ast.Node) bool {
+			if s, ok := n.(*ast.SelectorExpr); ok && s.Sel.Name == "Logger" {
+				found = true
+			}
+			return true
+		})
+		return found
+	}
+	escape := func(why string) {
+		// the whole object leaves the analysed code: every field counts as read
+		for _, f := range c.Fields {
+			reads[f.Name] = true
+		}
+		c.Escapes = append(c.Escapes, why)
+	}
 	collect := func(body ast.Node, id string, depth int) {
+		var stack []ast.Node
 		ast.Inspect(body, func(n ast.Node) bool {
+			if n == nil {
+				stack = stack[:len(stack)-1]
+				return true
+			}
+			stack = append(stack, n)
 			if s, ok := n.(*ast.SelectorExpr); ok {
 				if x, ok := s.X.(*ast.Ident); ok && x.Name == id {
 					if c.Field(s.Sel.Name) != nil {
@@ -762,6 +797,49 @@ func extractReads(tp, kp *pkgInfo, c *Claim) error {
 						fieldsOfMethod(s.Sel.Name, depth+1)
 					}
 				}
+				return true
+			}
+			idn, ok := n.(*ast.Ident)
+			if !ok || idn.Name != id || len(stack) < 2 {
+				return true
+			}
+			switch par := stack[len(stack)-2].(type) {
+			case *ast.SelectorExpr:
+				// handled above (X) or a field name that happens to equal the identifier (Sel)
+			case *ast.CallExpr:
+				isArg := false
+				for _, a := range par.Args {
+					if a == ast.Expr(idn) {
+						isArg = true
+					}
+				}
+				if !isArg || isLoggerCall(par) {
+					break
+				}
+				name := ""
+				switch f := par.Fun.(type) {
+				case *ast.SelectorExpr:
+					name = f.Sel.Name
+				case *ast.Ident:
+					name = f.Name
+				}
+				if !typedCallee[name] {
+					escape(fmt.Sprintf("*%s passed whole to %s (not a function of the analysed packages taking the concrete type)", c.Go, name))
+				}
+			case *ast.BinaryExpr: // comparison with nil
+			case *ast.KeyValueExpr, *ast.AssignStmt, *ast.ReturnStmt, *ast.CompositeLit, *ast.UnaryExpr, *ast.StarExpr:
+				if as, ok := par.(*ast.AssignStmt); ok {
+					onLhs := false
+					for _, l := range as.Lhs {
+						if l == ast.Expr(idn) {
+							onLhs = true
+						}
+					}
+					if onLhs {
+						break
+					}
+				}
+				escape(fmt.Sprintf("*%s used as a whole value (assigned / returned / stored)", c.Go))
 			}
 			return true
 		})
@@ -777,7 +855,7 @@ func extractReads(tp, kp *pkgInfo, c *Claim) error {
 			}
 		}
 	}
-	isClaimPtr := func(e ast.Expr) bool {
+	isClaimPtr = func(e ast.Expr) bool {
 		st, ok := e.(*ast.StarExpr)
 		if !ok {
 			return false
@@ -787,11 +865,32 @@ func extractReads(tp, kp *pkgInfo, c *Claim) error {
 		}
 		return false
 	}
+	typedCallee = map[string]bool{}
+	for _, fd := range kp.funcs {
+		for _, p := range fd.Type.Params.List {
+			if isClaimPtr(p.Type) {
+				typedCallee[fd.Name.Name] = true
+			}
+		}
+	}
 	nfuncs := 0
 	for _, fd := range kp.funcs {
 		if fd.Body == nil {
 			continue
 		}
+		// v := x.(*types.T)  /  v, ok := x.(*types.T)
+		ast.Inspect(fd.Body, func(n ast.Node) bool {
+			as, ok := n.(*ast.AssignStmt)
+			if !ok || len(as.Rhs) != 1 || len(as.Lhs) == 0 {
+				return true
+			}
+			if ta, ok := as.Rhs[0].(*ast.TypeAssertExpr); ok && ta.Type != nil && isClaimPtr(ta.Type) {
+				if v, ok := as.Lhs[0].(*ast.Ident); ok && v.Name != "_" {
+					collect(fd.Body, v.Name, 0)
+				}
+			}
+			return true
+		})
 		for _, p := range fd.Type.Params.List {
 			if isClaimPtr(p.Type) {
 				for _, n := range p.Names {
@@ -935,6 +1034,8 @@ func coqTok(t Tok) string {
 		return "Members " + coqStr(t.Field)
 	case "hexstr":
 		return "HexStr " + coqStr(t.Field)
+	case "hexstrlist":
+		return "HexStrList " + coqStr(t.Field)
 	}
 	panic("tok " + t.Kind)
 }
